@@ -255,6 +255,12 @@ def h_formatters(sx):
         line = "".join(l.split("  ", 1)[1] if "  " in l else "" for l in text.splitlines() if l.startswith("f") and ".feature" in l)
         want = "".join(chars[st] for _, res in processed for _, st in res)
         sx.check(line == want, "C15.progress2-one-char-per-processed-step", detail=lambda m: dict(det(m), progress2=line, expected=want, text=text[:300]))
+    if "progress" in names:
+        text = streams["progress"].getvalue()
+        line = "".join(l.split("  ", 1)[1] if "  " in l else "" for l in text.splitlines() if l.startswith("f") and ".feature" in l)
+        line = re.sub(r" *# \d+\.\d+s$", "", line)
+        want = "".join(chars[model[sname]["status"]] for sname, _ in processed if sname in model)
+        sx.check(line == want, "C15.progress-one-char-per-shown-scenario", detail=lambda m: dict(det(m), progress=line, expected=want, text=text[:300]))
     if "progress3" in names:
         text = streams["progress3"].getvalue()
         lines = [l.strip() for l in text.splitlines()]
